@@ -136,6 +136,7 @@ static void judge_forward_point(Ctx& c, EllCfg& e, const Centre& ce, const std::
   q128 lonr = (q128)ce.lon0 + P.lon12;
   // known separate regime (Inverse near the end of the equatorial shortest segment): its own key suffix
   const std::string rg = (std::fabs(ce.lat0) < 1e-6 && std::fabs(latd) < 1e-6 && am12 < 1e-3 * e.a) ? "/equatorial-near-conjugate" : "";
+  const std::string rgo = rg.empty() ? "" : " {regime equatorial-near-conjugate}";
 
   // ===== AzimuthalEquidistant::Forward
   {
@@ -148,10 +149,10 @@ static void judge_forward_point(Ctx& c, EllCfg& e, const Centre& ce, const std::
       double es = (double)ref::fabs(sl - R.s12), e1 = angdiff_rad(al, R.azi1) * am12, e2 = azi_err(azi, lond, P.azi2, lonr, P.lat2) * am12;
       double ek = (double)ref::fabs((q128)rk * R.s12 - P.m12) / (1 + std::fabs(rk));
       const double Tk = Ts * (1 + cond_f * e.a / std::max(am12, 1e-300));    // dm12/dazi1 = O(f a) times the azimuth uncertainty tol/|m12|
-      c.obs("azeq Forward: |hypot(x,y) - s12| / tolerance [" + e.name + "]", es / Ts, wa);
-      c.obs("azeq Forward: |atan2(x,y) - azi1|*|m12| / tolerance [" + e.name + "]", e1 / Ts, wa);
-      c.obs("azeq Forward: |azi - azi2|*|m12| / tolerance [" + e.name + "]", e2 / Ts, wa);
-      c.obs("azeq Forward: |rk*s12 - m12|/(1+|rk|) / conditioned tolerance [" + e.name + "]", ek / Tk, wa);
+      c.obs("azeq Forward: |hypot(x,y) - s12| / tolerance [" + e.name + "]" + rgo, es / Ts, wa);
+      c.obs("azeq Forward: |atan2(x,y) - azi1|*|m12| / tolerance [" + e.name + "]" + rgo, e1 / Ts, wa);
+      c.obs("azeq Forward: |azi - azi2|*|m12| / tolerance [" + e.name + "]" + rgo, e2 / Ts, wa);
+      c.obs("azeq Forward: |rk*s12 - m12|/(1+|rk|) / conditioned tolerance [" + e.name + "]" + rgo, ek / Tk, wa);
       if (es > Ts) c.viol("oracle:C17/azeq/Forward/distance" + rg, cls, J(wa).f("err_m", es).f("tol_m", Ts));
       if (e1 > Ts) c.viol("oracle:C17/azeq/Forward/azimuth-at-centre" + rg, cls, J(wa).f("err_m", e1).f("tol_m", Ts));
       if (e2 > Ts) c.viol("oracle:C17/azeq/Forward/azi" + rg, cls, J(wa).f("err_m", e2).f("tol_m", Ts));
@@ -159,7 +160,7 @@ static void judge_forward_point(Ctx& c, EllCfg& e, const Centre& ce, const std::
       // Reverse o Forward = identity
       double lat2, lon2, az2, rk2; e.ae->Reverse(ce.lat0, ce.lon0, fx, fy, lat2, lon2, az2, rk2);
       double er = chord(e, lat2, lon2, (q128)latd, (q128)lond);
-      c.obs("azeq Reverse o Forward: position error / tolerance [" + e.name + "]", er / (2 * Ts), wa);
+      c.obs("azeq Reverse o Forward: position error / tolerance [" + e.name + "]" + rgo, er / (2 * Ts), wa);
       if (!(er <= 2 * Ts)) c.viol("law:C17/azeq/Reverse-o-Forward" + rg, cls, J(wa).f("lat2", lat2).f("lon2", lon2).f("err_m", er).f("tol_m", 2 * Ts));
     }
     c.event("azeq Forward judged");
@@ -260,9 +261,10 @@ static void sec_azgn(Ctx& c, uint64_t idx) {
       if (want_forward && (double)ref::fabs(P.lon12) < 180 - 1e-6 && (double)P.a12 < 180 - 1e-6) {
         double x2, y2, az2, rk2; e.ae->Forward(ce.lat0, ce.lon0, lat, lon, x2, y2, az2, rk2);
         double es = std::fabs(std::hypot(x2, y2) - std::hypot(x, y)), eaz = angdiff_rad(ref::atan2((q128)x2, (q128)y2) / ref::deg<q128>(), azr) * std::fabs((double)P.m12);
-        c.obs("azeq Forward o Reverse: radius error / tolerance [" + e.name + "]", es / (2 * T), wr);
-        c.obs("azeq Forward o Reverse: azimuth error*|m12| / tolerance [" + e.name + "]", eaz / (2 * T), wr);
         const std::string rg = (std::fabs(ce.lat0) < 1e-6 && std::fabs(lat) < 1e-6 && std::fabs((double)P.m12) < 1e-3 * e.a) ? "/equatorial-near-conjugate" : "";
+        const std::string rgo = rg.empty() ? "" : " {regime equatorial-near-conjugate}";
+        c.obs("azeq Forward o Reverse: radius error / tolerance [" + e.name + "]" + rgo, es / (2 * T), wr);
+        c.obs("azeq Forward o Reverse: azimuth error*|m12| / tolerance [" + e.name + "]" + rgo, eaz / (2 * T), wr);
         if (es > 2 * T || eaz > 2 * T) c.viol("law:C17/azeq/Forward-o-Reverse" + rg, cls, J(wr).f("x2", x2).f("y2", y2).f("es_m", es).f("eaz_m", eaz).f("tol_m", 2 * T));
       }
     }
@@ -347,12 +349,13 @@ static void judge_cs_forward(Ctx& c, EllCfg& e, const Centre& ce, const CassiniS
   if (!finite4(x, y, azi, rk)) { c.viol("oracle:C17/cassini/Forward/non-finite", cls, wf); return; }
   double M = std::fabs((double)R.P.M12), m2 = 2 * std::fabs((double)(R.P.m12 * R.P.M12));
   const std::string rg = (std::fabs(latd) < 1e-6 && m2 < 1e-3 * e.a) ? "/equatorial-near-conjugate" : "";
+  const std::string rgo = rg.empty() ? "" : " {regime equatorial-near-conjugate}";
   double Ts = T + 4 * eps * (std::fabs((double)xq) + std::fabs((double)yq));
   double ex = (double)ref::fabs((q128)x - xq), ey = (double)ref::fabs((q128)y - yq) * M, ea = azi_err(azi, lond, R.P.azi2, (q128)ce.lon0 + R.lon12, R.P.lat2) * m2, ek = std::fabs(rk - (double)R.P.M12) * e.a;
-  c.obs("cassini Forward: |x - x_ref| / tolerance [" + e.name + "]", ex / Ts, wf);
-  c.obs("cassini Forward: |y - y_ref|*M12 / tolerance [" + e.name + "]", ey / Ts, wf);
-  c.obs("cassini Forward: |azi - azi_ref|*m(P'P) / tolerance [" + e.name + "]", ea / Ts, wf);
-  c.obs("cassini Forward: |rk - M12|*a / tolerance [" + e.name + "]", ek / Ts, wf);
+  c.obs("cassini Forward: |x - x_ref| / tolerance [" + e.name + "]" + rgo, ex / Ts, wf);
+  c.obs("cassini Forward: |y - y_ref|*M12 / tolerance [" + e.name + "]" + rgo, ey / Ts, wf);
+  c.obs("cassini Forward: |azi - azi_ref|*m(P'P) / tolerance [" + e.name + "]" + rgo, ea / Ts, wf);
+  c.obs("cassini Forward: |rk - M12|*a / tolerance [" + e.name + "]" + rgo, ek / Ts, wf);
   // a point exactly on the (anti)meridian: the library's zero-length branch applies and the easting azimuth is +-90 deg at the point, no conditioning excuse
   { double dl = std::remainder(lond - ce.lon0, 360.0);
     if ((dl == 0 || std::fabs(dl) == 180) && std::fabs(latd) < 90 && std::fabs(ce.lat0) < 90) {
@@ -366,7 +369,7 @@ static void judge_cs_forward(Ctx& c, EllCfg& e, const Centre& ce, const CassiniS
   if (ek > Ts) c.viol("oracle:C17/cassini/Forward/rk" + rg, cls, J(wf).f("err_m", ek).f("tol_m", Ts));
   double lat2, lon2, az2, rk2; cs.Reverse(x, y, lat2, lon2, az2, rk2);
   double er = chord(e, lat2, lon2, (q128)latd, (q128)lond);
-  c.obs("cassini Reverse o Forward: position error / tolerance [" + e.name + "]", er / (2 * Ts), wf);
+  c.obs("cassini Reverse o Forward: position error / tolerance [" + e.name + "]" + rgo, er / (2 * Ts), wf);
   if (!(er <= 2 * Ts)) c.viol("law:C17/cassini/Reverse-o-Forward" + rg, cls, J(wf).f("lat2", lat2).f("lon2", lon2).f("err_m", er).f("tol_m", 2 * Ts));
   c.event("cassini Forward judged");
 }
@@ -424,8 +427,8 @@ static void sec_cassini(Ctx& c, uint64_t idx) {
       if (inside) {     // Forward o Reverse = identity inside the region
         double x2, y2, a2, k2; cs.Forward(lat, lon, x2, y2, a2, k2);
         double ex = std::fabs(x2 - x), ey = std::fabs(y2 - y) * std::fabs((double)R.P.M12);
-        c.obs("cassini Forward o Reverse: max(|dx|, |dy|*M12) / tolerance [" + e.name + "]", std::max(ex, ey) / (3 * T), wr);
         const std::string rg = (std::fabs(lat) < 1e-6 && 2 * std::fabs((double)(R.P.m12 * R.P.M12)) < 1e-3 * e.a) ? "/equatorial-near-conjugate" : "";
+        c.obs("cassini Forward o Reverse: max(|dx|, |dy|*M12) / tolerance [" + e.name + "]" + (rg.empty() ? "" : " {regime equatorial-near-conjugate}"), std::max(ex, ey) / (3 * T), wr);
         if (!(ex <= 3 * T && ey <= 3 * T)) c.viol("law:C17/cassini/Forward-o-Reverse" + rg, cls, J(wr).f("x2", x2).f("y2", y2).f("ex_m", ex).f("ey_m", ey).f("tol_m", 3 * T));
       }
     }
